@@ -62,7 +62,11 @@ RULE = ('corpus (test-suite scenarios, finding witnesses), then a systematic swe
         'list / numpy / dict masks), streams of 0-6 batches of 0-4 rows, ~10% malformed (missing keys, misaligned features, duplicate '
         'names, arity mismatches, unhashable features); a typed world: the dtype-pair matrix (int / float / bool / str / object / 2-D / dict-leaf '
         'columns x list | ndarray x row slicer | numpy mask | list mask x int | float | str | bool | None replacement value, every combination '
-        'REQUIRED in every run) and random typed pipelines, observed through typed bag aggregates; non-trivial = at least one slicer and at least two distinct slice keys '
+        'REQUIRED in every run) and random typed pipelines, observed through typed bag aggregates; carried-in states (round 10): every systematic pipeline '
+        'with >= 2 batches x {iterate(rest, state=prev.agg_state), ChainedRunner.update_state fold, iterator.state / from_state mid-stream} x the hand-over '
+        'after every batch (every fifth with a second hand-over), then 500 random pipelines under random cuts incl. empty parts, same brute-force oracle over '
+        'the whole stream; 35 carry arms REQUIRED (each way x each slicer kind, handed-over state holds slice entries, slice only before / first seen after / '
+        'on both sides of the hand-over); non-trivial = at least one slicer and at least two distinct slice keys '
         'reported or an error kind predicted; distinct = distinct canonical case JSON')
 
 
